@@ -138,6 +138,10 @@ class Check:
             sd = seed * 1000 + 700 + s
             specs.append({"name": f"gen-scans-{sd}", "src": ["gen", {"seed": sd, "knobs": {"requires_scan": True, "defender_position": "last"}}], "policy": "scans",
                           "seed": sd, "episodes": 2, "steps": 80 if q else 160})
+        for s in range(12 if q else 48):  # a folder path that changes hands (scanned, deleted by terminal command, created again), health visible only through scans
+            sd = seed * 1000 + 800 + s
+            specs.append({"name": f"gen-refolder-{sd}", "src": ["gen", {"seed": sd, "knobs": {"requires_scan": True, "max_actions": 1000}}], "policy": "refolder",
+                          "seed": sd, "episodes": 1, "steps": 60})
         for i, pol in enumerate(["collide", "nic", "scans", "scans", "disrupt", "scans"] if q else ["collide", "nic", "scans", "disrupt", "scans", "scans"] * 4):
             specs.append({"name": f"uc2-fullmap-{pol}-{i}", "src": ["fullmap", {"file": "data_manipulation.yaml", "seed": seed * 10 + i}], "policy": pol,
                           "seed": seed * 100 + 20 + i, "episodes": 2, "steps": 100 if q else 128, "max_len": 100 if q else None})
